@@ -52,6 +52,8 @@ let vec_ops r = let n = integer r in List.init n (fun _ -> match word r with
   | w -> failwith ("unknown_vec_op_" ^ w))
 let vec_probe r = match word r with
   | "none" -> VPNone | "at" -> VPAt (zi r) | "dot" | "add" | "sub" | "addeq" -> VPBinary (zi r) | "cross" -> VPCross (zi r)
+  | "subeq" | "mul" -> VPBinary (zi r) | "rdot" | "radd" | "rsub" | "raddeq" | "rsubeq" | "rmul" -> VPBinaryR (zi r) | "rcross" -> VPCrossR (zi r)
+  | "angle" -> VPAngle (zi r) | "rangle" -> VPAngleR (zi r) | "eq" -> VPEq (zi r) | "req" -> VPEqR (zi r)
   | w -> failwith ("unknown_vec_probe_" ^ w)
 let zz r = let a = zi r in let b = zi r in (a, b)
 let mat_ops r = let n = integer r in List.init n (fun _ -> match word r with
@@ -98,6 +100,10 @@ let rec handler r =
   | "vec_at" | "vec_at_c" -> let d = zi r in let i = zi r in out (guard_vec_index d i)
   | "dot" | "vec_add" | "vec_sub" | "vec_addeq" | "vec_subeq" -> let a = zi r in let b = zi r in out (guard_vec_binary a b)
   | "cross" -> let a = zi r in let b = zi r in out (guard_cross a b)
+  | "vec_mul" -> let a = zi r in let b = zi r in out (guard_vec_mul a b)
+  | "angle" -> let a = zi r in let b = zi r in out (guard_angle a b)
+  | "vec_eq" -> let a = zi r in let b = zi r in out (guard_vec_eq a b)
+  | "outer" -> let a = zi r in let b = zi r in out (guard_outer a b)
   | "mat_at" | "mat_at_c" -> let rr = zi r in let _ = zi r in let i = zi r in out (guard_mat_index rr i)
   | "delete_row" | "return_row" -> let rr = zi r in let _ = zi r in let i = zi r in out (guard_row rr i)
   | "delete_col" -> let rr = zi r in let c = zi r in let i = zi r in out (guard_delete_column rr c i)
